@@ -3,7 +3,7 @@
    notification to the core; "every interleaving" = "every list". *)
 From Coq Require Import ZArith List Bool.
 From Common Require Import Res.
-From Core Require Import World Model Step Reach Rel_History Res_NoRaise Proofs_C02.
+From Core Require Import World Model Step Reach Rel_History Res_NoRaise Proofs_C02 Proofs_C03b Proofs_C02b.
 Import ListNotations.
 Open Scope Z_scope.
 
@@ -44,3 +44,34 @@ Theorem C02_schedule_no_raise :
   end.
 Proof. exact schedule_no_raise_lemma. Qed.
 Print Assumptions C02_schedule_no_raise.
+
+(* T5 (agreement clause), PARTIAL: proved for the model for pause, resume and stop (here) and
+   for next / previous / natural end of track (Property_C03.v, whose conclusions include the
+   audio URI and state), from any state that is settled on a track (no notification pending,
+   no switch or seek under way, audio agreeing), with consume off.  For play from the
+   stopped state, seek, and edits of the tracklist the clause is decided by the settled-run
+   agreement monitor and the correspondence only; seek from stopped and replaying the current
+   track under consume are recorded known findings. *)
+Theorem C02_agreement_pause :
+  forall shuf f c w, settled_on w c -> pstate w = Playing -> a_fresh w = false ->
+  let w' := run_world shuf f w [Pause; Deliver; Deliver] in
+  current w' = Some c /\ pstate w' = Paused /\ pending w' = None /\ queue w' = []
+  /\ a_uri w' = Some (trk c) /\ a_state w' = Paused /\ World.tl w' = World.tl w.
+Proof. exact pause_agreement. Qed.
+Print Assumptions C02_agreement_pause.
+
+Theorem C02_agreement_resume :
+  forall shuf f c w, settled_on w c -> pstate w = Paused -> a_fresh w = false ->
+  let w' := run_world shuf f w [Resume; Deliver; Deliver; Deliver] in
+  current w' = Some c /\ pstate w' = Playing /\ pending w' = None /\ queue w' = []
+  /\ a_uri w' = Some (trk c) /\ a_state w' = Playing /\ World.tl w' = World.tl w.
+Proof. exact resume_agreement. Qed.
+Print Assumptions C02_agreement_resume.
+
+Theorem C02_agreement_stop :
+  forall shuf f c w, settled_on w c -> pstate w <> Stopped -> consume w = false ->
+  let w' := run_world shuf f w [Stop; Deliver; Deliver] in
+  current w' = Some c /\ pstate w' = Stopped /\ pending w' = None /\ queue w' = []
+  /\ a_uri w' = None /\ a_state w' = Stopped /\ World.tl w' = World.tl w.
+Proof. exact stop_agreement. Qed.
+Print Assumptions C02_agreement_stop.
